@@ -209,6 +209,24 @@ return [e1, e2, string(eb1), bm.em, len(bm.e), len(bm.eb)]`},
 global (G, L)
 f := func() { bm := import("bm"); bm.m.k += G; bm.arr[1][0] += 1; return [bm.m.k, bm.arr] }
 return [f(), f()]`},
+	{"builtin module: the import compiled first is executed second", `
+global (G, L)
+f := func() { bm := import("bm"); return [bm.x, bm.m.k, bm.arr] }
+bm := import("bm")
+bm.x = G; bm.m.k = G + 1; bm.arr[0] = G + 2
+g := func() { return import("bm").m }
+return [f(), g().k, bm.x]`},
+	{"throw statements in the main function and in constant functions", `
+global (G, L)
+r := []
+thr := func(x) { if x > 1 { throw "big" }; throw error("small") }
+try { throw "main " + string(G) } catch e { r = append(r, string(e)) }
+try { thr(G) } catch e { r = append(r, string(e)) }
+try { thr(0) } catch e { r = append(r, string(e)) }
+fmt := import("fmt")
+try { thr(2) } catch e { r = append(r, fmt.Sprintf("%+v", e)) }
+if G > 100 { throw "last " + string(G) }
+return r`},
 	{"source modules with state", `
 global (G, L)
 c := import("cnt"); s := import("state")
